@@ -64,7 +64,10 @@ func probeSuite(c Cfg) []Req {
 		}
 	}
 	allowedL := lowerSortedUnique(allowed)
-	hdrLists := [][]string{nil, {"x-not-allowed"}, {"authorization"}, {"content-type"}, {"authorization,x-foo"}, {""}}
+	hdrLists := [][]string{nil, {"x-not-allowed"}, {"authorization"}, {"content-type"}, {"authorization,x-foo"}, {""},
+		{"x-foo  ,\t\tx-bar"},                  // more OWS than is tolerated
+		{strings.Repeat(",", 20) + "x-foo"},    // more empty elements than are tolerated
+		{strings.Repeat("x", 5000) + ",x-foo"}} // an element far beyond any allowed name
 	if len(allowedL) > 0 {
 		hdrLists = append(hdrLists,
 			[]string{strings.Join(allowedL, ",")},
@@ -86,7 +89,8 @@ func probeSuite(c Cfg) []Req {
 	}
 	_ = star
 	origins := append(append([]string{}, match...), miss...)
-	origins = append(origins, "https://evil.test", "null", "https://", "HTTPS://EXAMPLE.COM", "")
+	origins = append(origins, "https://evil.test", "null", "https://", "HTTPS://EXAMPLE.COM", "",
+		"https://[::1", "https://a..b.test", "https://"+strings.Repeat("a", 400)+".test", "https://example.com:0", "https://example.com:65536", "https://example.com:080", "1https://example.com")
 	for oi, o := range origins {
 		qs = append(qs,
 			Req{Method: "GET", H: []HV{{hOrigin, []string{o}}}},
